@@ -8,9 +8,9 @@
    Why it holds: every exception of user code is raised inside a transition or inside a step; the step's are caught by
    the step, a transition's by transition_to, which routes it to EXCEPTED through a second transition that skips the
    exit phase.  That second transition fails only if user code raises again or the future is already resolved.  The
-   injected fault is one-shot (hook h at its k-th occurrence); so the proof tracks [quiet]: "the fault can no longer
-   fire", shows that an operation called with a legal target fails only by firing the fault ([fired]: not quiet before,
-   quiet after), and that attempted transitions ARE legal: the target computed by a step is a legal successor of the
+   injected fault is one-shot (hook h at its k-th occurrence); so the proof tracks [spent]: "the fault can no longer
+   fire", shows that an operation called with a legal target fails only by firing the fault ([fired]: not spent before,
+   spent after), and that attempted transitions ARE legal: the target computed by a step is a legal successor of the
    state the process is in when the step ends ([legal], invariant [T3] ties the program counter of a suspended step to
    the state label), the future of a live process is pending, an armed interrupt action is pending.
 
@@ -23,10 +23,10 @@ Import ListNotations.
 Local Open Scope list_scope.
 
 (* ------------------------------------------------------------------ the one-shot fault *)
-Definition quiet (w : world) : Prop :=
+Definition spent (w : world) : Prop :=
   match cf_fault (cfg w) with None => True | Some (h, k, _) => k < nat_assoc h (occ w) end.
 
-Definition fired (w w' : world) : Prop := ~ quiet w /\ quiet w'.
+Definition fired (w w' : world) : Prop := ~ spent w /\ spent w'.
 
 Lemma nat_assoc_bump_ge h x l : nat_assoc h l <= nat_assoc h (nat_bump x l).
 Proof.
@@ -44,14 +44,14 @@ Proof.
   - destruct (String.eqb h k) eqn:E; cbn; rewrite E; [reflexivity | exact IH].
 Qed.
 
-Lemma quiet_bump w w' x : cfg w' = cfg w -> occ w' = nat_bump x (occ w) -> quiet w -> quiet w'.
+Lemma spent_bump w w' x : cfg w' = cfg w -> occ w' = nat_bump x (occ w) -> spent w -> spent w'.
 Proof.
-  unfold quiet. intros -> ->. destruct (cf_fault (cfg w)) as [[[h k] e]|]; [|auto].
+  unfold spent. intros -> ->. destruct (cf_fault (cfg w)) as [[[h k] e]|]; [|auto].
   pose proof (nat_assoc_bump_ge h x (occ w)). lia.
 Qed.
 
-Lemma quiet_same w w' : cfg w' = cfg w -> occ w' = occ w -> quiet w -> quiet w'.
-Proof. unfold quiet. intros -> ->. auto. Qed.
+Lemma spent_same w w' : cfg w' = cfg w -> occ w' = occ w -> spent w -> spent w'.
+Proof. unfold spent. intros -> ->. auto. Qed.
 
 (* ------------------------------------------------------------------ what reaches the loop *)
 Definition ev_ok (e : event) : bool :=
@@ -97,7 +97,7 @@ Proof.
 Qed.
 
 Definition RT (n : option label) (w w' : world) : Prop :=
-  GA w' /\ cfg w' = cfg w /\ (quiet w -> quiet w') /\ lblT n w w' /\ t0 w' = t0 w /\ stepping w' = stepping w
+  GA w' /\ cfg w' = cfg w /\ (spent w -> spent w') /\ lblT n w w' /\ t0 w' = t0 w /\ stepping w' = stepping w
   /\ transitioning w' = transitioning w /\ transition_failing w' = transition_failing w
   /\ List.length (acts w) <= List.length (acts w').
 
@@ -190,7 +190,7 @@ Qed.
 Lemma eeq_RT n w w' : GA w -> eeq w w' -> RT n w w'.
 Proof.
   intros G E. split; [eapply eeq_GA; eauto|]. destruct E as (A1 & A2 & A3 & A4 & A5 & A6 & A7 & A8 & A9 & A10 & A11 & A12).
-  split; [exact A1|]. split; [apply quiet_same; assumption|]. split; [left; exact A2|]. repeat split; try assumption. rewrite A5. lia.
+  split; [exact A1|]. split; [apply spent_same; assumption|]. split; [left; exact A2|]. repeat split; try assumption. rewrite A5. lia.
 Qed.
 
 Definition FrX {A} (m : LM A) : Prop :=
@@ -238,7 +238,7 @@ Qed.
 
 (* ------------------------------------------------------------------ building the relation by hand *)
 Lemma mk_RT n w w' :
-  cfg w' = cfg w -> (quiet w -> quiet w') -> lblT n w w' -> t0 w' = t0 w -> stepping w' = stepping w ->
+  cfg w' = cfg w -> (spent w -> spent w') -> lblT n w w' -> t0 w' = t0 w -> stepping w' = stepping w ->
   transitioning w' = transitioning w -> transition_failing w' = transition_failing w ->
   (is_terminated w' = false -> pfut w' = PfPending) -> (closed w' = true -> is_terminated w' = true) ->
   (forall a, intr w' = Some a -> pend w' a) -> (transitioning w' = false -> transition_failing w' = false) ->
@@ -266,7 +266,7 @@ Lemma leq_RT n w w' : GA w -> leq w w' -> (forall a, intr w' = Some a -> pend w'
 Proof.
   intros ((G1 & G2 & G3 & G5 & G6) & G4) (A1 & A2 & A3 & A6 & A7 & A8 & A9 & A10 & A11 & A12 & A13) H3.
   apply mk_RT; try assumption.
-  - apply quiet_same; assumption.
+  - apply spent_same; assumption.
   - left; exact A2.
   - rewrite is_terminated_lbl, A2, A6, <- is_terminated_lbl. exact G1.
   - rewrite is_terminated_lbl, A2, A7, <- is_terminated_lbl. exact G2.
@@ -320,7 +320,7 @@ Lemma bump_RT n x w w' :
 Proof.
   intros ((G1 & G2 & G3 & G5 & G6) & G4) A1 A2 A3 A4 A5 A6 A7 A8 A9 A10 A11 A12.
   apply mk_RT; try assumption.
-  - eapply quiet_bump; eauto.
+  - eapply spent_bump; eauto.
   - left; exact A2.
   - rewrite is_terminated_lbl, A2, A6, <- is_terminated_lbl. exact G1.
   - rewrite is_terminated_lbl, A2, A7, <- is_terminated_lbl. exact G2.
@@ -343,7 +343,7 @@ Proof.
   destruct (cf_fault (cfg w)) as [[[h k] e]|] eqn:Hf; cbn [cfg set]; rewrite ?Hf.
   - destruct (String.eqb h name && Nat.eqb k (nat_assoc name (occ w))) eqn:Hc; wp_prim.
     + apply HQ; [exact R1|]. intros _ _. apply andb_true_iff in Hc. destruct Hc as [Hh Hk].
-      apply String.eqb_eq in Hh. apply Nat.eqb_eq in Hk. subst h. unfold fired, quiet. cbn. rewrite Hf. split; [lia|].
+      apply String.eqb_eq in Hh. apply Nat.eqb_eq in Hk. subst h. unfold fired, spent. cbn. rewrite Hf. split; [lia|].
       rewrite nat_assoc_bump_same. lia.
     + apply HQ; [exact R1|]. intros _ [].
   - wp_prim. apply HQ; [exact R1|]. intros _ [].
@@ -433,7 +433,7 @@ Qed.
 Definition heq (w w' : world) : Prop :=
   cfg w' = cfg w /\ cur_label w' = cur_label w /\ stepping w' = stepping w /\ intr w' = intr w /\ acts w' = acts w
   /\ closed w' = closed w /\ transitioning w' = transitioning w /\ transition_failing w' = transition_failing w
-  /\ t0 w' = t0 w /\ (quiet w -> quiet w') /\ (errs_ok (trace w) -> errs_ok (trace w')).
+  /\ t0 w' = t0 w /\ (spent w -> spent w') /\ (errs_ok (trace w) -> errs_ok (trace w')).
 
 Lemma heq_refl w : heq w w.
 Proof. repeat split; auto. Qed.
@@ -448,19 +448,19 @@ Lemma hook_H name w (Q : result unit -> world -> Prop) :
 Proof.
   intro HQ. unfold hook, emit. repeat wp_prim.
   match goal with |- wp _ _ ?w1 => assert (H1 : heq w w1) end.
-  { repeat split; try reflexivity; [apply (quiet_bump _ _ name); reflexivity | intro H; apply errs_ok_snoc; [exact H | reflexivity]]. }
+  { repeat split; try reflexivity; [apply (spent_bump _ _ name); reflexivity | intro H; apply errs_ok_snoc; [exact H | reflexivity]]. }
   destruct (cf_fault (cfg w)) as [[[h k] e]|] eqn:Hf; cbn [cfg set]; rewrite ?Hf.
   - destruct (String.eqb h name && Nat.eqb k (nat_assoc name (occ w))) eqn:Hc; wp_prim.
     + apply HQ; [exact H1 | reflexivity|]. intros _. apply andb_true_iff in Hc. destruct Hc as [Hh Hk].
-      apply String.eqb_eq in Hh. apply Nat.eqb_eq in Hk. subst h. unfold fired, quiet. cbn. rewrite Hf. split; [lia|].
+      apply String.eqb_eq in Hh. apply Nat.eqb_eq in Hk. subst h. unfold fired, spent. cbn. rewrite Hf. split; [lia|].
       rewrite nat_assoc_bump_same. lia.
     + apply HQ; [exact H1 | reflexivity | intros []].
   - wp_prim. apply HQ; [exact H1 | reflexivity | intros []].
 Qed.
 
-Lemma fired_mono a b c : (quiet a -> quiet b) -> fired b c -> fired a c.
+Lemma fired_mono a b c : (spent a -> spent b) -> fired b c -> fired a c.
 Proof. intros H [N Q]. split; [intro X; apply N; auto | exact Q]. Qed.
-Lemma fired_mono_r a b c : (quiet b -> quiet c) -> fired a b -> fired a c.
+Lemma fired_mono_r a b c : (spent b -> spent c) -> fired a b -> fired a c.
 Proof. intros H [N Q]. split; [exact N | auto]. Qed.
 
 (* the condition under which entering ns does not fail on the future *)
@@ -551,7 +551,7 @@ Qed.
 Lemma eeq_heq w w' : eeq w w' -> heq w w' /\ pfut w' = pfut w.
 Proof.
   intros (A1 & A2 & A3 & A4 & A5 & A6 & A7 & A8 & A9 & A10 & A11 & A12). split; [|exact A6].
-  repeat split; try assumption. apply quiet_same; assumption.
+  repeat split; try assumption. apply spent_same; assumption.
 Qed.
 
 (* _exit_current_state *)
@@ -704,7 +704,7 @@ Section Transition.
   Qed.
 End Transition.
 
-Lemma RT_q n a b : RT n a b -> quiet a -> quiet b.
+Lemma RT_q n a b : RT n a b -> spent a -> spent b.
 Proof. intros (_ & _ & H & _). exact H. Qed.
 
 Lemma GA_set_transitioning w : GA0 w -> GA (w <| transitioning := true |>).
@@ -737,16 +737,6 @@ Section Transition2.
         intros _. destruct R3 as (_ & _ & _ & L3 & _). destruct L3 as [L3|[[L3 _]|L3]]; [congruence | | exact L3].
         destruct R2 as (_ & _ & _ & _ & _ & _ & X2 & _). cbn in X2. congruence.
       - wp_prim. split; [exact R2|]. split; [intros [] | intros _; exact L2]. }
-    (* entering (a second time after a re-route), then the tail *)
-    assert (Henter : forall s w1, RT n w0 w1 -> label_of s = label_of ns -> (is_terminated w1 = false \/ terminal (label_of s) = true) ->
-              (forall s'', s <> SFinished s'' true) ->
-              wp (bind (enter_next rec_ctl s) (fun _ => ret tt)) (fun r w' =>
-                 match r with
-                 | Ok _ => wp (bind get (fun w' => when (is_terminated w') on_terminated)) Q w'
-                 | Err e => Q (Err e) w'
-                 end) w1 -> True).
-    { intros; exact I. }
-    clear Henter.
     assert (Hafter_exit : forall w1, RT n w0 w1 -> cur_label w1 = cur_label w ->
               (transition_failing w = false -> is_terminated w1 = false) ->
               (forall r w', RT n w0 w' -> (body_ok w ns -> is_err r -> fired w1 w') -> (is_ok r -> cur_label w' = n) -> Q r w') ->
@@ -808,11 +798,11 @@ Section Transition3.
   (* the second transition, to EXCEPTED, made by the handler of the first: it skips the exit phase *)
   Lemma ttf_spec e w (Q : result unit -> world -> Prop) :
     GA0 w -> transitioning w = false -> transition_failing w = true ->
-    (forall r w', GA w' -> cfg w' = cfg w -> (quiet w -> quiet w') -> t0 w' = t0 w -> stepping w' = stepping w ->
+    (forall r w', GA w' -> cfg w' = cfg w -> (spent w -> spent w') -> t0 w' = t0 w -> stepping w' = stepping w ->
                   transitioning w' = false -> transition_failing w' = false ->
                   (cur_label w' = cur_label w \/ cur_label w' = Some LExcepted) ->
                   List.length (acts w) <= List.length (acts w') ->
-                  (quiet w -> is_ok r /\ cur_label w' = Some LExcepted) -> Q r w') ->
+                  (spent w -> is_ok r /\ cur_label w' = Some LExcepted) -> Q r w') ->
     wp (transition_to_failing rec_ctl (SExcepted e)) Q w.
   Proof.
     intros G0 Htr Hf HQ. unfold transition_to_failing. do 2 wp_prim. rewrite Htr. do 2 wp_prim.
@@ -822,11 +812,11 @@ Section Transition3.
     assert (Hlab : cur_label w1 = cur_label w \/ cur_label w1 = Some LExcepted).
     { destruct Lb1 as [L|[[L _]|L]]; [left; exact L | cbn in L; discriminate L | right; exact L]. }
     assert (Hfin : forall (r : result unit) (rr : result unit),
-               (quiet w -> is_ok r /\ cur_label w1 = Some LExcepted) ->
+               (spent w -> is_ok r /\ cur_label w1 = Some LExcepted) ->
                Q r (w1 <| transition_failing := false |> <| transitioning := false |>)).
     { intros r rr Hq. apply HQ; try reflexivity; try assumption.
       split; [apply GA0_flags; apply G1 | reflexivity]. }
-    assert (Hnq : is_err r1 -> ~ quiet w).
+    assert (Hnq : is_err r1 -> ~ spent w).
     { intro He. apply (F1 (fun X => False_ind _ (eq_ind true (fun b => if b then True else False) I false (eq_trans (eq_sym Hf) X))) He). }
     destruct r1 as [u|e1]; cbv beta iota.
     - wp_prim. apply (Hfin (Ok u) (Ok u)). intros _. split; [exact I | apply L1; exact I].
@@ -870,7 +860,7 @@ Section Transition3.
         * discriminate.
       + apply ttf_spec; [apply GA0_flags; apply G1 | reflexivity | reflexivity |].
         intros r2 w2 G2 C2 Q2 T2 S2 X2 Fl2 Lb2 N2 Hq2. cbn in C2, T2, S2, N2. rewrite cur_label_flags' in Lb2. wp_prim.
-        assert (Hqq : quiet w -> quiet w2) by (intro X; apply Q2; apply Q1; exact X).
+        assert (Hqq : spent w -> spent w2) by (intro X; apply Q2; apply Q1; exact X).
         assert (R : RT n w (w2 <| transition_failing := false |> <| transitioning := false |>)).
         { split; [split; [apply GA0_flags; apply G2 | reflexivity]|]. split; [cbn; congruence|]. split; [exact Hqq|].
           split; [|cbn; repeat split; try congruence; lia].
@@ -1690,6 +1680,10 @@ Proof.
   - eapply errs_ok_In; [apply G | exact H].
   - unfold nf in N. rewrite H in N. exact N.
 Qed.
+
+Theorem task_never_fails c es w e :
+  run c es = Some w -> ~ In ECancelFuture es -> t0 w = PcFailed e -> e = EOutOfFuel.
+Proof. intros Hr Hn H. exact (nothing_escapes c es w e Hr Hn (or_intror H)). Qed.
 
 (* never half-transitioned: between environment events no transition is under way and the failure bypass is not armed;
    an armed interrupt action is pending; a closed process has terminated; the future of a live process is pending *)
